@@ -166,7 +166,22 @@ func runBundle(base string, c *mCase) (obs *mObs) {
 		}
 	}
 	// paths outside any package directory
-	for _, p := range []string{root, filepath.Dir(root), filepath.Join(root, "nosuchdir", "x"), filepath.Join(root, "..", "elsewhere"), "/", filepath.Join(root, "terraform-sources.json-not")} {
+	outsidePaths := []string{}
+	for _, pk := range c.Pkgs {
+		// a directory whose name differs from a listed one only by letter case is not in the manifest
+		for _, v := range []string{strings.ToUpper(pk.Local), strings.ToLower(pk.Local)} {
+			listed := false
+			for _, q := range c.Pkgs {
+				if q.Local == v {
+					listed = true
+				}
+			}
+			if !listed && v != "" && !strings.ContainsAny(v, "/\\") && v != "." && v != ".." {
+				outsidePaths = append(outsidePaths, filepath.Join(root, v, "sub"))
+			}
+		}
+	}
+	for _, p := range append(outsidePaths, []string{root, filepath.Dir(root), filepath.Join(root, "nosuchdir", "x"), filepath.Join(root, "..", "elsewhere"), "/", filepath.Join(root, "terraform-sources.json-not")}...) {
 		if _, err := bundle.SourceForLocalPath(p); err == nil {
 			known := false
 			for _, pk := range c.Pkgs {
